@@ -109,6 +109,23 @@ def faults(report, folder):
         for label, sheet_rows in (("a cell with text", good), ("an empty cell", empty_first), ("the only, empty cell of its row", only_empty)):
             odslib.write_ods(path, odslib.content_xml([sheet_rows], column_attribute=value))
             check("table:number-columns-repeated=%r on %s" % (value, label))
+    # ... also when a document in which the same text is a valid count (text:c="0": no blanks) was read just before
+    before = os.path.join(folder, "before.ods")
+    for value in ("0", "00", " 0", "+0"):
+        no_blanks = [{"rep": 1, "cells": [{"rep": 1, "paras": [[{"k": "raw", "text": "a"}, {"k": "markup", "xml": '<text:s text:c="%s"/>' % value},
+                                                                 {"k": "raw", "text": "b"}]]}]}]
+        odslib.write_ods(before, odslib.content_xml([no_blanks]))
+        for label, sheet_rows in (("a cell with text", good), ("an empty cell", empty_first)):
+            for attribute in ("column", "row"):
+                try:
+                    first = list(rowio.ods_rows(before, 1))
+                except errors.DataFormatError:
+                    first = None  # (this spelling is no count at all: nothing to remember)
+                if first not in (None, [["ab"]]):
+                    report.violation("c15", {"fault": "text:c=%r" % value}, [["ab"]], first, "text:c=%r (no blanks) between a and b reads as %r" % (value, first))
+                odslib.write_ods(path, odslib.content_xml([sheet_rows], **{attribute + "_attribute": value}))
+                check("table:number-%ss-repeated=%r on %s, read after a document with text:c=%r" % (attribute, value, label, value),
+                      signature="row-repeats-invalid" if attribute == "row" else None)
     # the count of blanks of text:s is a repeat count too (xs:nonNegativeInteger)
     for value in ("-1", "-3", "x", "", "1.5", "1_0", "\u0663"):
         blanks = [{"rep": 1, "cells": [{"rep": 1, "paras": [[{"k": "raw", "text": "a"}, {"k": "markup", "xml": '<text:s text:c="%s"/>' % value},
